@@ -389,6 +389,8 @@ def reset_writer(tmpdir):
 
 def other_device_dir(reference):
     """a writable directory on another filesystem than `reference`, or None"""
+    if os.environ.get("VERIF_C20_SIMULATE_EXDEV") == "1":
+        return None
     try:
         dev = os.stat(reference).st_dev
     except OSError:
